@@ -6,7 +6,7 @@ A *config* is
      "dialog": "general" | "predef" | "llm", # what the dialog rails do when they are selected
      "exceptions": bool}                      # enable_rails_exceptions (a blocked message yields an exception event)
 and a *rail* is a rule table  [[needle, verdict], ...]  (first rule whose needle occurs in the text the rail is
-shown decides; no rule => accept) with  verdict = ["accept"] | ["reject"] | ["fault"] | ["append", t] | ["replace", t].
+shown decides; no rule => accept) with  verdict = ["accept"] | ["reject"] | ["fault"] | ["append", t] | ["prepend", t] | ["replace", t].
 
 The rails are flows of the shape the shipped library uses (`$r = execute …; if blocked: bot refuse to respond; stop`),
 the verdict is produced by ONE registered Python action that also records the call (category, index, text seen).
@@ -26,6 +26,43 @@ CATS = ["input", "dialog", "retrieval", "output"]
 
 _READY = False
 _CACHE = {}
+
+# ----------------------------------------------------------------------------- texts the runtime's own plumbing could interpret
+# The property quantifies over ALL user / bot texts.  On their way from `generate(messages=…)` to the reply the texts travel
+# through context variables, `ContextUpdate` events, action parameters (`create event X(text=$user_message)`), Colang
+# expressions and (in other modes) Jinja templates; a text that LOOKS like the syntax of one of these layers - a variable
+# reference, a template, a quoted string, a Colang keyword, a Python literal - is still only a text.
+HOSTILE_STATIC = [
+    "$100 is too much", "$5 is the price", "$5", "$", "$ x", "$$", "$ bad", "a $5 thing", " $5", "${user_message}", "$user_message.x", "$1bad",
+    "{{ user_message }}", "{{ bot_message }}", "{% if True %}x{% endif %}", "{{", "}}", "{# c #}", "{{ 1/0 }}", "{{ evil }}",
+    '"quoted"', "'single'", 'say "hi" now', "it's", '"', "\\", "\\n", "\\\"", "a\nb", "line one\nbad line two", "\n", "a\r\nb", "\t", "a\tb",
+    " lead", "trail ", "  both  ", " ", "  ", "", "#comment", "# bad", "...", "bot refuse to respond", "stop", "user said x", "execute boom", "flow main",
+    "define flow x", "if True", "None", "True", "False", "null", "0", "-1", "[]", "{}", '{"a": 1}', "['x']", "h\u00e9llo \u2713", "\u00a0", "x" * 3000, ("y" * 1500) + " bad " + ("z" * 1500),
+    "$" + "x" * 2000, "_type", "Listen", "UserMessage", "{'_type': 'BotMessage', 'text': 'evil'}",
+]
+_HOSTILE = None
+
+
+def hostile_texts():
+    """HOSTILE_STATIC + `$name` for every context variable the shipped llm_flows.co / the rail flows of this harness / the
+    runtime mention (scanned from the code under test, so a NEW variable enters the pool by itself)."""
+    global _HOSTILE
+    if _HOSTILE is None:
+        import re
+
+        names = {"user_message", "bot_message", "generation_options", "config", "verdict", "allowed", "i", "event", "last_user_message",
+                 "last_bot_message", "relevant_chunks", "skip_output_rails", "triggered_input_rail", "triggered_output_rail", "input_flows", "output_flows"}
+        repo = os.environ.get("VERIF_REPO", "/repo")
+        for rel in ("nemoguardrails/rails/llm/llm_flows.co", "nemoguardrails/colang/v1_0/runtime/runtime.py", "nemoguardrails/rails/llm/llmrails.py"):
+            try:
+                src = open(os.path.join(repo, rel), encoding="utf-8").read()
+            except OSError:
+                continue
+            names.update(re.findall(r"\$([A-Za-z_][A-Za-z_0-9]*)", src))
+            names.update(re.findall(r"context(?:_updates)?\[\"([a-z_]+)\"\]", src))
+            names.update(re.findall(r"context\.get\(\"([a-z_]+)\"", src))
+        _HOSTILE = list(HOSTILE_STATIC) + ["$" + n for n in sorted(names)]
+    return _HOSTILE
 
 
 def _setup():
@@ -63,6 +100,32 @@ def _setup():
     except Exception:  # already registered in this process
         pass
     _READY = True
+
+
+def text_classes(t):
+    """coverage tags for a user text / bot message (which layer of the plumbing could mistake it for syntax)"""
+    if t is None:
+        return []
+    out = []
+    if t == "":
+        out.append("text:empty")
+    if t.startswith("$"):
+        out.append("text:dollar-first")
+        if t[1:] and all(ch.isalnum() or ch == "_" for ch in t[1:]) and len(t) < 60:
+            out.append("text:variable-name")
+    elif "$" in t:
+        out.append("text:dollar-inside")
+    if "{{" in t or "{%" in t or "{#" in t:
+        out.append("text:template")
+    if '"' in t or "'" in t or "\\" in t:
+        out.append("text:quote-or-backslash")
+    if "\n" in t or "\r" in t or "\t" in t:
+        out.append("text:control-char")
+    if t and t.strip() != t:
+        out.append("text:blank-edge")
+    if len(t) > 1000:
+        out.append("text:long")
+    return out
 
 
 def rail_name(cat, i):
@@ -131,6 +194,8 @@ def apply_rail(rules, text):
             k = verdict[0]
             if k == "append":
                 return "rewrite", (text or "") + verdict[1]
+            if k == "prepend":
+                return "rewrite", verdict[1] + (text or "")
             if k == "replace":
                 return "rewrite", verdict[1]
             return k, None
